@@ -119,7 +119,8 @@ def draw_program(cs, cfg):
         p = cs.randint(1, 3, "p")
         q = p if (square or herm) else (cs.randint(1, 3, "q") if not cs.bool("sq", 1, 2) else p)
         return {"batch": list(b), "p": p, "q": q, "seed": cs.draw(1000, "mseed"), "herm": bool(herm),
-                "scale": [1.0, 1e-9, 1e5][cs.weighted([6, 1, 1], "mscale")]}
+                "scale": [1.0, 1e-9, 1e5, 0.0][cs.weighted([12, 2, 2, 1], "mscale")],
+                "spike": (P["dtype"] != "float32") and cs.bool("spike", 1, 8)}
 
     for step in range(nops):
         if not pool:
@@ -152,8 +153,8 @@ def draw_program(cs, cfg):
             herm = cs.bool("densesym", 1, 3)
             m = draw_mat(herm=herm)
             valid = not (arg is True and not herm and not (m["p"] == 1 and m["q"] == 1 and P["dtype"] != "complex128"))
-            if arg is True and 0 in m["batch"] and m["p"] == m["q"]:
-                valid = True        # an empty batch of matrices is (vacuously) Hermitian
+            if arg is True and (0 in m["batch"] or m.get("scale") == 0.0) and m["p"] == m["q"]:
+                valid = True        # an empty batch of matrices, and the zero matrix, are Hermitian
             if arg is True and m["p"] != m["q"]:
                 valid = False
             if arg is False and herm:
@@ -317,6 +318,10 @@ def _u_init(self, mat, is_hermitian=False):
 
 def _u_mv(self, x):
     _rec(self, "_mv")
+    if self.mat.numel() > 0 and not bool(self.mat.any()):
+        # a zero operator that does not even look at its input (no autograd dependence on x)
+        shape = torch.broadcast_shapes(self.mat.shape[:-2], x.shape[:-1]) + (self.mat.shape[-2],)
+        return x.new_zeros(shape)
     return torch.matmul(self.mat, x.unsqueeze(-1)).squeeze(-1)
 
 
@@ -383,7 +388,12 @@ def gen_matrix(m, dtype):
             x = x + torch.triu(torch.ones(m["p"], m["q"], dtype=dt), diagonal=1) * 3
         elif m["p"] == m["q"] == 1 and dt.is_complex:
             x = x + 2j
-    return x * m.get("scale", 1.0)
+    x = x * m.get("scale", 1.0)
+    if m.get("spike") and m["p"] == m["q"] and m["p"] > 1:
+        # one entry many orders of magnitude above the rest (Hermitian matrices stay Hermitian)
+        x = x.clone()
+        x[..., 0, 0] = x[..., 0, 0] + 1e9 * max(m.get("scale", 1.0), 1e-300)
+    return x
 
 
 def gen_operand(shape, seed, dtype):
@@ -473,10 +483,23 @@ def rtol_of(dtype):
     return 2e-4 if dtype == "float32" else 1e-9
 
 
-def close(res, ref, dtype, scale=None):
+def close(res, ref, dtype, scale=None, bound=None):
     if tuple(res.shape) != tuple(ref.shape):
         return False, "shape %s, model %s" % (tuple(res.shape), tuple(ref.shape))
     rt = rtol_of(dtype)
+    if bound is not None:
+        # entry-wise: |error_i| <= rtol * (|A| |x|)_i, the natural round-off bound of a product
+        if res.dtype != ref.dtype:
+            return False, "dtype %s, model %s" % (res.dtype, ref.dtype)
+        if res.numel() == 0:
+            return True, ""
+        err = (res - ref).abs()
+        lim = rt * bound.to(err.dtype).expand_as(err) * 8 + 1e-300
+        if not bool(torch.all(err <= lim)):
+            k = int(torch.argmax(err - lim))
+            return False, "values differ: abs err %.3e where the round-off bound is %.3e" % (
+                float(err.reshape(-1)[k]), float(lim.reshape(-1)[k]))
+        return True, ""
     if scale is None:
         scale = max(1.0, float(ref.abs().max()) if ref.numel() else 1.0)
     if res.dtype != ref.dtype:
@@ -576,9 +599,15 @@ def execute(P, pre):
                     A, MA, dA = pool[op["i"]]
                     B, MB, dB = pool[op["j"]]
                     prod = torch.matmul(MA, MB)
-                    asym = 0.0 if prod.numel() == 0 else \
-                        float((prod - prod.transpose(-2, -1).conj()).abs().max()) / max(float(prod.abs().max()), 1e-300)
-                    if asym <= 1e-9:
+                    if prod.numel() == 0:
+                        asym = 0.0
+                    else:
+                        # asymmetry of every entry relative to the magnitude of its own row and column
+                        ap = prod.abs().double()
+                        sv = torch.maximum(ap.amax(dim=-1), ap.amax(dim=-2))
+                        den = torch.sqrt(sv.unsqueeze(-1) * sv.unsqueeze(-2)) + 1e-300
+                        asym = float(((prod - prod.transpose(-2, -1).conj()).abs().double() / den).max())
+                    if asym <= 1e-12:
                         op = dict(op, valid=True)      # the product happens to be Hermitian: nothing to reject
                         model, desc = prod, "(%s)@(%s)[herm]" % (dA, dB)
                     elif asym < 1e-2:
@@ -647,13 +676,13 @@ def execute(P, pre):
                         if op["prod"] in ("rmv", "rmm"):
                             aM = aM.transpose(-2, -1)
                         if x is None:
-                            sc_ = float(aM.max()) if aM.numel() else 1.0
+                            bound = aM
                         else:
                             xa = x.abs()
                             bound = torch.matmul(aM.to(xa.dtype), xa.unsqueeze(-1)).squeeze(-1) if op["prod"] in ("mv", "rmv") \
                                 else torch.matmul(aM.to(xa.dtype), xa)
-                            sc_ = float(bound.max()) if bound.numel() else 1.0
-                        ok, why = close(res.detach(), model, dtype, scale=max(sc_, 1e-300))
+                        bound = bound.real if bound.is_complex() else bound
+                        ok, why = close(res.detach(), model, dtype, bound=bound)
                         o["value"] = res.detach().resolve_conj().cpu().numpy()
                         if not ok:
                             V("product_value", why)
